@@ -1,1 +1,394 @@
-/-! # C04 — property theorems (to be filled) -/
+import PraatModel.Save
+import PraatModel.Lemmas.Sort
+
+/-!
+# C04 — saving adds only blanks and absorbs only sub-threshold slivers (list level, exact arithmetic)
+-/
+namespace C04
+
+/-- `l` is a chain of touching, positive-length entries leading from time `p` to time `r` -/
+def Chain : Int → Int → List (Iv Int) → Prop
+  | p, r, [] => p = r
+  | p, r, e :: rest => e.s = p ∧ e.s < e.e ∧ Chain e.e r rest
+
+theorem Chain.append {p r u : Int} {l1 l2 : List (Iv Int)} (h1 : Chain p r l1) (h2 : Chain r u l2) : Chain p u (l1 ++ l2) := by
+  induction l1 generalizing p with
+  | nil => simp only [Chain] at h1; subst h1; exact h2
+  | cons e rest ih => exact ⟨h1.1, h1.2.1, ih h1.2.2⟩
+
+theorem Chain.le {p r : Int} {l : List (Iv Int)} (h : Chain p r l) : p ≤ r := by
+  induction l generalizing p with
+  | nil => simp only [Chain] at h; omega
+  | cons e rest ih => have := ih h.2.2; have := h.1; have := h.2.1; omega
+
+theorem Chain.bounds {p r : Int} {l : List (Iv Int)} (h : Chain p r l) : ∀ e ∈ l, p ≤ e.s ∧ e.e ≤ r ∧ e.s < e.e := by
+  induction l generalizing p with
+  | nil => intro e he; simp at he
+  | cons x rest ih =>
+    intro e he
+    rcases List.mem_cons.1 he with rfl | h'
+    · have := h.2.2.le; exact ⟨by have := h.1; omega, this, h.2.1⟩
+    · have := ih h.2.2 e h'; have := h.1; have := h.2.1; omega
+
+theorem Chain.pos {p r : Int} {l : List (Iv Int)} (h : Chain p r l) : Pos l := fun e he => (h.bounds e he).2.2
+
+theorem Chain.disj {p r : Int} {l : List (Iv Int)} (h : Chain p r l) : Disj l := by
+  induction l generalizing p with
+  | nil => simp [Disj]
+  | cons x rest ih =>
+    unfold Disj; rw [List.pairwise_cons]
+    exact ⟨fun y hy => (h.2.2.bounds y hy).1, ih h.2.2⟩
+
+theorem chain_single (p r : Int) (l : String) (h : p < r) : Chain p r [⟨p, r, l⟩] := ⟨rfl, h, rfl⟩
+
+theorem chain_single' (e : Iv Int) (p r : Int) (h1 : e.s = p) (h2 : e.s < e.e) (h3 : e.e = r) : Chain p r [e] := ⟨h1, h2, h3⟩
+
+/-- a chain is already in `list.sort()` order -/
+theorem Chain.sorted {p r : Int} {l : List (Iv Int)} (h : Chain p r l) : sortIvs l = l :=
+  sortIvs_of_wf l h.pos h.disj
+
+/-! ## `_fillInBlanks` -/
+
+def endOf (p : Int) : List (Iv Int) → Int
+  | [] => p
+  | e :: rest => endOf e.e rest
+
+theorem fillGaps_chain (p : Int) (es : List (Iv Int)) (hp : Pos es) (hd : Disj es) (hle : ∀ e ∈ es, p ≤ e.s) :
+    Chain p (endOf p es) (fillGaps p es) := by
+  induction es generalizing p with
+  | nil => simp [fillGaps, endOf, Chain]
+  | cons e rest ih =>
+    obtain ⟨h1, h2⟩ := hd.cons
+    have hpe := hp e (by simp)
+    have ih' := ih e.e (pos_tail hp) h2 h1
+    simp only [fillGaps, endOf]
+    by_cases hlt : p < e.s
+    · simp only [hlt, if_true, List.singleton_append]
+      exact ⟨rfl, hlt, rfl, hpe, ih'⟩
+    · have : p = e.s := by have := hle e (by simp); omega
+      simp only [hlt, if_false, List.nil_append]
+      exact ⟨this.symm, hpe, ih'⟩
+
+theorem fillGaps_members (p : Int) (es : List (Iv Int)) :
+    es.Sublist (fillGaps p es) ∧ ∀ x ∈ fillGaps p es, x ∈ es ∨ x.l = "" := by
+  induction es generalizing p with
+  | nil => simp [fillGaps]
+  | cons e rest ih =>
+    obtain ⟨i1, i2⟩ := ih e.e
+    simp only [fillGaps]
+    constructor
+    · split
+      · exact ((i1.cons_cons e)).cons _
+      · exact i1.cons_cons e
+    · intro x hx
+      simp only [List.mem_append, List.mem_cons] at hx
+      rcases hx with hx | rfl | hx
+      · split at hx
+        · simp only [List.mem_singleton] at hx; subst hx; right; rfl
+        · simp at hx
+      · left; simp
+      · rcases i2 x hx with h | h
+        · left; exact List.mem_cons_of_mem _ h
+        · right; exact h
+
+theorem endOf_le (p : Int) (es : List (Iv Int)) (hi : Int) (hp : p ≤ hi) (h : ∀ e ∈ es, e.e ≤ hi) : endOf p es ≤ hi := by
+  induction es generalizing p with
+  | nil => exact hp
+  | cons e rest ih => exact ih e.e (h e (by simp)) (fun x hx => h x (List.mem_cons_of_mem _ hx))
+
+theorem chain_last (l : List (Iv Int)) (p r : Int) (hne : l ≠ []) (hc : Chain p r l) : ∃ lst, l.getLast? = some lst ∧ lst.e = r := by
+  induction l generalizing p with
+  | nil => exact absurd rfl hne
+  | cons x xs ih =>
+    cases xs with
+    | nil => exact ⟨x, rfl, hc.2.2⟩
+    | cons y ys =>
+      obtain ⟨lst, h1, h2⟩ := ih x.e (by simp) hc.2.2
+      exact ⟨lst, by rw [List.getLast?_cons_cons]; exact h1, h2⟩
+
+/-- **blank filling**: for a time-ordered tier inside `[lo, hi]` the result tiles `[lo, hi]` (ascending, gap-free,
+overlap-free, positive lengths), contains the input entries unchanged and in order, and everything else is a blank -/
+theorem fillInBlanks_tiles (es : List (Iv Int)) (lo hi : Int) (hlh : lo < hi) (hp : Pos es) (hd : Disj es)
+    (hin : ∀ e ∈ es, lo ≤ e.s ∧ e.e ≤ hi) :
+    ∃ es', fillInBlanks es lo hi = .ok es' ∧ Chain lo hi es' ∧ es' ≠ [] ∧ es.Sublist es' ∧
+      ∀ x ∈ es', x ∈ es ∨ x.l = "" := by
+  cases es with
+  | nil =>
+    refine ⟨[⟨lo, hi, ""⟩], ?_, chain_single lo hi "" hlh, by simp, by simp, by simp⟩
+    have hc : Chain lo hi [⟨lo, hi, ""⟩] := chain_single lo hi "" hlh
+    simp [fillInBlanks, fillGaps, withHead, withTail, show ¬ lo < lo by omega, show ¬ hi < hi by omega, hc.sorted]
+  | cons first rest =>
+    obtain ⟨d1, d2⟩ := hd.cons
+    have hf := hp first (by simp)
+    have hfin := hin first (by simp)
+    have hgap := fillGaps_chain first.e rest (pos_tail hp) d2 d1
+    have hmem := fillGaps_members first.e rest
+    have hbody : Chain first.s (endOf first.e rest) (first :: fillGaps first.e rest) := ⟨rfl, hf, hgap⟩
+    have hend : endOf first.e rest ≤ hi :=
+      endOf_le first.e rest hi hfin.2 (fun x hx => (hin x (List.mem_cons_of_mem _ hx)).2)
+    unfold fillInBlanks
+    simp only [List.isEmpty_cons, Bool.false_eq_true, if_false, show ¬ first.s < lo by omega]
+    generalize hdef : withHead lo first (first :: fillGaps first.e rest) = ne1
+    have hne1 : Chain lo (endOf first.e rest) ne1 := by
+      rw [← hdef]; unfold withHead
+      by_cases h : lo < first.s
+      · simp only [h, if_true]; exact ⟨rfl, h, hbody⟩
+      · have : lo = first.s := by omega
+        simp only [h, if_false]; rw [this]; exact hbody
+    have hne1ne : ne1 ≠ [] := by rw [← hdef]; unfold withHead; split <;> simp
+    have hs1 : (first :: rest).Sublist ne1 := by
+      rw [← hdef]; unfold withHead; split
+      · exact (hmem.1.cons_cons first).cons _
+      · exact hmem.1.cons_cons first
+    have hx1 : ∀ y ∈ ne1, y ∈ first :: rest ∨ y.l = "" := by
+      intro y hy
+      rw [← hdef] at hy
+      unfold withHead at hy
+      split at hy
+      · rcases List.mem_cons.1 hy with rfl | hy
+        · right; rfl
+        · rcases List.mem_cons.1 hy with rfl | hy
+          · left; simp
+          · rcases hmem.2 y hy with h | h
+            · left; exact List.mem_cons_of_mem _ h
+            · right; exact h
+      · rcases List.mem_cons.1 hy with rfl | hy
+        · left; simp
+        · rcases hmem.2 y hy with h | h
+          · left; exact List.mem_cons_of_mem _ h
+          · right; exact h
+    obtain ⟨lst, hl1, hl2⟩ := chain_last ne1 lo _ hne1ne hne1
+    rw [hl1]
+    simp only [show ¬ hi < lst.e by omega, if_false]
+    unfold withTail
+    by_cases h : lst.e < hi
+    · simp only [h, if_true]
+      have hc2 : Chain (endOf first.e rest) hi [⟨lst.e, hi, ""⟩] := by
+        rw [hl2] at h ⊢; exact chain_single _ _ _ h
+      have hne2 := hne1.append hc2
+      refine ⟨_, by rw [hne2.sorted], hne2, by simp, hs1.trans (List.sublist_append_left _ _), ?_⟩
+      intro x hx
+      rcases List.mem_append.1 hx with h' | h'
+      · exact hx1 x h'
+      · simp only [List.mem_singleton] at h'; subst h'; right; rfl
+    · simp only [h, if_false]
+      have : endOf first.e rest = hi := by omega
+      rw [this] at hne1
+      exact ⟨_, by rw [hne1.sorted], hne1, hne1ne, hs1, hx1⟩
+
+/-- an interval that starts before the requested start, or ends after the requested end, makes the save raise -/
+theorem fillInBlanks_rejects (first : Iv Int) (rest : List (Iv Int)) (lo hi : Int) (h : first.s < lo) :
+    fillInBlanks (first :: rest) lo hi = .error .ParsingError := by
+  simp [fillInBlanks, h]
+
+/-! ## `_removeUltrashortIntervals` -/
+
+def Long (m : Int) (l : List (Iv Int)) : Prop := ∀ e ∈ l, m ≤ e.e - e.s
+
+theorem chain_snoc_end (l : List (Iv Int)) (last : Iv Int) (p cur : Int) (h : Chain p cur (l ++ [last])) : last.e = cur := by
+  induction l generalizing p with
+  | nil => exact h.2.2
+  | cons x xs ih => exact ih x.e h.2.2
+
+theorem chain_snoc_extend (l : List (Iv Int)) (last : Iv Int) (p cur e : Int) (h : Chain p cur (l ++ [last])) (hle : cur ≤ e) :
+    Chain p e (l ++ [⟨last.s, e, last.l⟩]) := by
+  induction l generalizing p with
+  | nil =>
+    have h1 := h.1; have h2 := h.2.1; have h3 : last.e = cur := h.2.2
+    exact chain_single' _ _ _ h1 (by simp only; omega) rfl
+  | cons x xs ih => exact ⟨h.1, h.2.1, ih x.e h.2.2⟩
+
+/-- the first loop: `acc` (reversed) is what has been emitted so far; `cur` is the time reached in the input -/
+theorem absorbShort_spec (m lo hi : Int) (es acc : List (Iv Int)) (cur : Int)
+    (hacc : acc ≠ [] → Chain lo cur acc.reverse) (haccL : Long m acc) (hacc0 : acc = [] → lo ≤ cur)
+    (hes : Chain cur hi es) :
+    (absorbShort m lo acc es = [] ∧ acc = []) ∨
+    (absorbShort m lo acc es ≠ [] ∧ Chain lo hi (absorbShort m lo acc es) ∧ Long m (absorbShort m lo acc es)) := by
+  induction es generalizing acc cur with
+  | nil =>
+    have hc : cur = hi := hes
+    subst hc
+    simp only [absorbShort]
+    cases acc with
+    | nil => left; simp
+    | cons a as =>
+      right
+      exact ⟨by simp, hacc (by simp), fun e he => haccL e (List.mem_reverse.1 he)⟩
+  | cons e rest ih =>
+    obtain ⟨he1, he2, he3⟩ := hes
+    simp only [absorbShort]
+    by_cases hs : e.e - e.s < m
+    · simp only [hs, if_true]
+      cases acc with
+      | nil =>
+        exact ih [] e.e (fun h => absurd rfl h) (by intro x hx; simp at hx) (fun _ => by have := hacc0 rfl; omega) he3
+      | cons last before =>
+        have hc := hacc (by simp)
+        rw [List.reverse_cons] at hc
+        have hrev : Chain lo e.e (⟨last.s, e.e, last.l⟩ :: before).reverse := by
+          rw [List.reverse_cons]
+          exact chain_snoc_extend before.reverse last lo cur e.e hc (by omega)
+        have hlast : last.e = cur := chain_snoc_end before.reverse last lo cur hc
+        have hlong : Long m (⟨last.s, e.e, last.l⟩ :: before) := by
+          intro x hx
+          rcases List.mem_cons.1 hx with rfl | hx
+          · have := haccL last (by simp); simp only; omega
+          · exact haccL x (List.mem_cons_of_mem _ hx)
+        rcases ih (⟨last.s, e.e, last.l⟩ :: before) e.e (fun _ => hrev) hlong (by intro h; cases h) he3 with ⟨_, h2⟩ | h
+        · cases h2
+        · right; exact h
+    · simp only [hs, if_false]
+      cases acc with
+      | nil =>
+        have hlo : lo ≤ e.s := by have := hacc0 rfl; omega
+        simp only
+        by_cases heq : e.s = lo
+        · have hb : (!(e.s == lo)) = false := by simp [heq]
+          simp only [hb, Bool.false_eq_true, if_false]
+          rcases ih [e] e.e (fun _ => chain_single' e lo e.e heq he2 rfl)
+            (by intro x hx; simp only [List.mem_singleton] at hx; subst hx; omega) (by intro h; cases h) he3 with ⟨_, h2⟩ | h
+          · cases h2
+          · right; exact h
+        · have hb : (!(e.s == lo)) = true := by simp [heq]
+          simp only [hb, if_true]
+          rcases ih [⟨lo, e.e, e.l⟩] e.e (fun _ => chain_single lo e.e e.l (by omega))
+            (by intro x hx; simp only [List.mem_singleton] at hx; subst hx; simp only; omega) (by intro h; cases h) he3 with ⟨_, h2⟩ | h
+          · cases h2
+          · right; exact h
+      | cons last before =>
+        have hrev : Chain lo e.e (e :: last :: before).reverse := by
+          rw [List.reverse_cons]
+          exact (hacc (by simp)).append (chain_single' e cur e.e he1 he2 rfl)
+        rcases ih (e :: last :: before) e.e (fun _ => hrev)
+          (by intro x hx; rcases List.mem_cons.1 hx with rfl | hx; omega; exact haccL x hx) (by intro h; cases h) he3 with ⟨_, h2⟩ | h
+        · cases h2
+        · right; exact h
+
+theorem stitch_chain (m p r : Int) (l : List (Iv Int)) (h : Chain p r l) : stitch m l = l := by
+  induction l generalizing p with
+  | nil => rfl
+  | cons a rest ih =>
+    cases rest with
+    | nil => rfl
+    | cons b rest' =>
+      have hb : b.s = a.e := h.2.2.1
+      simp only [stitch, tabs, Tm.zero, hb, Int.sub_self, Int.lt_irrefl, if_false, false_and]
+      rw [ih a.e h.2.2]
+
+/-- **sliver absorption**: from a tiling of `[lo, hi]` the save keeps a tiling of `[lo, hi]` in which no interval is
+shorter than the threshold — or nothing at all when every interval was a sliver -/
+theorem removeUltrashort_tiles (m lo hi : Int) (es : List (Iv Int)) (h : Chain lo hi es) :
+    removeUltrashort es m lo = [] ∨
+    (removeUltrashort es m lo ≠ [] ∧ Chain lo hi (removeUltrashort es m lo) ∧ Long m (removeUltrashort es m lo)) := by
+  unfold removeUltrashort
+  have := absorbShort_spec m lo hi es [] lo (fun h' => absurd rfl h') (by intro x hx; simp at hx) (fun _ => by omega) h
+  rcases this with ⟨h1, _⟩ | ⟨h1, h2, h3⟩
+  · left; rw [h1]; rfl
+  · right; rw [stitch_chain m lo hi _ h2]; exact ⟨h1, h2, h3⟩
+
+/-- with nothing shorter than the threshold, nothing is absorbed and nothing changes -/
+theorem removeUltrashort_id (m lo hi : Int) (es : List (Iv Int)) (h : Chain lo hi es) (hl : Long m es) :
+    removeUltrashort es m lo = es := by
+  unfold removeUltrashort
+  have key : ∀ (es acc : List (Iv Int)) (cur : Int), Chain cur hi es → Long m es → (acc = [] → cur = lo) →
+      absorbShort m lo acc es = acc.reverse ++ es := by
+    intro es
+    induction es with
+    | nil => intro acc cur _ _ _; simp [absorbShort]
+    | cons e rest ih =>
+      intro acc cur hc hl' h0
+      have hlong := hl' e (by simp)
+      simp only [absorbShort, show ¬ e.e - e.s < m by omega, if_false]
+      cases acc with
+      | nil =>
+        have : e.s = lo := by rw [hc.1]; exact h0 rfl
+        have hb : (!(e.s == lo)) = false := by simp [this]
+        simp only [hb, Bool.false_eq_true, if_false]
+        rw [ih [e] e.e hc.2.2 (fun x hx => hl' x (List.mem_cons_of_mem _ hx)) (by intro h; cases h)]
+        simp
+      | cons a as =>
+        simp only
+        rw [ih (e :: a :: as) e.e hc.2.2 (fun x hx => hl' x (List.mem_cons_of_mem _ hx)) (by intro h; cases h)]
+        simp
+  rw [key es [] lo h hl (fun _ => rfl)]
+  simp only [List.reverse_nil, List.nil_append]
+  exact stitch_chain m lo hi es h
+
+/-- **save on an interval tier**: blank filling followed by sliver absorption (threshold `m`) turns a time-ordered tier
+inside `[lo, hi]` into a tiling of `[lo, hi]` without intervals shorter than `m` (or into nothing when everything is a
+sliver); with the threshold disabled the tiling is the blank-filled tier itself and every interval has positive length -/
+theorem saved_entries (es : List (Iv Int)) (lo hi : Int) (hlh : lo < hi) (hp : Pos es) (hd : Disj es)
+    (hin : ∀ e ∈ es, lo ≤ e.s ∧ e.e ≤ hi) (m : Int) :
+    ∃ filled, fillInBlanks es lo hi = .ok filled ∧ Chain lo hi filled ∧ es.Sublist filled ∧
+      (∀ x ∈ filled, x ∈ es ∨ x.l = "") ∧
+      (removeUltrashort filled m lo = [] ∨
+        (Chain lo hi (removeUltrashort filled m lo) ∧ Long m (removeUltrashort filled m lo))) := by
+  obtain ⟨filled, h1, h2, _, h4, h5⟩ := fillInBlanks_tiles es lo hi hlh hp hd hin
+  refine ⟨filled, h1, h2, h4, h5, ?_⟩
+  rcases removeUltrashort_tiles m lo hi filled h2 with h | ⟨_, h, h'⟩
+  · left; exact h
+  · right; exact ⟨h, h'⟩
+
+/-- re-saving: a tier that already tiles `[lo, hi]` is a fixed point of blank filling -/
+theorem fillInBlanks_idem (es : List (Iv Int)) (lo hi : Int) (hne : es ≠ []) (h : Chain lo hi es) :
+    fillInBlanks es lo hi = .ok es := by
+  have hlh : lo < hi := by
+    cases es with
+    | nil => exact absurd rfl hne
+    | cons e rest => have := h.1; have := h.2.1; have := h.2.2.le; omega
+  obtain ⟨es', e1, c, _, sub, mem⟩ := fillInBlanks_tiles es lo hi hlh h.pos h.disj (fun e he => by have := h.bounds e he; omega)
+  -- two chains lo → hi, one a sublist of the other, are equal
+  have key : ∀ (a b : List (Iv Int)) (p : Int), Chain p hi a → Chain p hi b → a.Sublist b → a ≠ [] ∨ b = [] → a = b := by
+    intro a
+    induction a with
+    | nil =>
+      intro b p ha hb _ hor
+      rcases hor with h | h
+      · exact absurd rfl h
+      · exact h.symm
+    | cons x xs ih =>
+      intro b p ha hb hs _
+      cases b with
+      | nil => cases hs
+      | cons y ys =>
+        -- both start at p; a chain element is determined by its start? no — but y starts at p and x starts at p, and
+        -- x occurs in y :: ys: if x ≠ y then x ∈ ys starts at ≥ y.e > p, contradiction
+        have hxy : x = y := by
+          cases hs with
+          | cons _ hs' =>
+            have hx : x ∈ ys := hs'.subset (by simp)
+            have := (hb.2.2.bounds x hx).1
+            have := ha.1; have := hb.1; have := hb.2.1
+            omega
+          | cons_cons _ _ => rfl
+        subst hxy
+        cases hs with
+        | cons _ hs' =>
+          have hx : x ∈ ys := hs'.subset (by simp)
+          have := (hb.2.2.bounds x hx).1
+          have := hb.2.1
+          omega
+        | cons_cons _ hs' =>
+          congr 1
+          by_cases hxs : xs = []
+          · subst hxs
+            -- a = [x] reaches hi, so ys must be empty
+            have : x.e = hi := by have := ha.2.2; simp only [Chain] at this; exact this
+            cases ys with
+            | nil => rfl
+            | cons z zs =>
+              have := hb.2.2
+              have h1 := this.1; have h2 := this.2.1; have h3 := this.2.2.le
+              omega
+          · exact ih ys x.e ha.2.2 hb.2.2 hs' (Or.inl hxs)
+  rw [e1, key es es' lo h c sub (Or.inl hne)]
+
+/-! ## non-vacuity -/
+def exEs : List (Iv Int) := [⟨10, 30, "a"⟩, ⟨30, 31, "s"⟩, ⟨31, 60, "b"⟩, ⟨80, 90, "c"⟩]
+example : Pos exEs ∧ Disj exEs ∧ (∀ e ∈ exEs, (0 : Int) ≤ e.s ∧ e.e ≤ 100) := by
+  refine ⟨?_, ?_, ?_⟩ <;> simp [exEs, Pos, Disj] <;> decide
+#guard (fillInBlanks exEs 0 100).toOption == some [⟨0, 10, ""⟩, ⟨10, 30, "a"⟩, ⟨30, 31, "s"⟩, ⟨31, 60, "b"⟩, ⟨60, 80, ""⟩, ⟨80, 90, "c"⟩, ⟨90, 100, ""⟩]
+#guard ((fillInBlanks exEs 0 100).toOption.map fun f => removeUltrashort f 5 0) ==
+  some [⟨0, 10, ""⟩, ⟨10, 31, "a"⟩, ⟨31, 60, "b"⟩, ⟨60, 80, ""⟩, ⟨80, 90, "c"⟩, ⟨90, 100, ""⟩]
+
+end C04
